@@ -360,6 +360,12 @@ func c05R4(c *Ctx, rule string) {
 // orderings of their operands.
 func minMaxShape(c *Ctx, rule string) {
 	for _, name := range []string{"min", "max"} {
+		if c.P.Fn(name) == nil && c.P.Pkg.Types.Scope().Lookup(name) == nil {
+			// the package no longer declares its own helper: every min/max call
+			// is the language builtin, whose meaning is not this package's to get wrong
+			c.Check(rule, "util."+name+":meaning", "-", name+"(a,b) returns the "+pick(name == "min", "smaller", "larger")+" operand", true, "language builtin (no package-level "+name+")", 1)
+			continue
+		}
 		fn := c.Fn(rule, name)
 		if fn == nil {
 			continue
